@@ -250,3 +250,19 @@ func OpString(v ssa.Value) string {
 	}
 	return v.Name()
 }
+
+// RecvTypeName returns the name of the receiver's named type ("" for a plain function).
+func RecvTypeName(fn *ssa.Function) string {
+	recv := fn.Signature.Recv()
+	if recv == nil {
+		return ""
+	}
+	t := recv.Type()
+	if pt, ok := t.(*types.Pointer); ok {
+		t = pt.Elem()
+	}
+	if n, ok := t.(*types.Named); ok {
+		return n.Obj().Name()
+	}
+	return ""
+}
